@@ -52,10 +52,10 @@ Qed.
 Definition ws (n : nat) : list ptoken := repeat PWhitespace n.
 
 Lemma ws_snoc n : ws n ++ [PWhitespace] = PWhitespace :: ws n.
-Proof. unfold ws. induction n; [reflexivity|]. cbn [repeat app]. rewrite IHn. reflexivity. Qed.
+Proof. unfold ws. induction n as [|n IHn]; [reflexivity|]. cbn [repeat app]. rewrite IHn. reflexivity. Qed.
 
 Lemma rev_ws n : rev (ws n) = ws n.
-Proof. induction n; [reflexivity|]. change (ws (S n)) with (PWhitespace :: ws n). cbn [rev]. rewrite IHn. apply ws_snoc. Qed.
+Proof. induction n as [|n IHn]; [reflexivity|]. change (ws (S n)) with (PWhitespace :: ws n). cbn [rev]. rewrite IHn. apply ws_snoc. Qed.
 
 Lemma item_normal it acc : item_wf it ->
   lex_run LNormal acc (item_text it) = Ok (LNormal, PWhitespace :: acc).
@@ -95,7 +95,7 @@ Qed.
 
 (* white space in the partial-token list: skipped, and its multiplicity is irrelevant *)
 Lemma ptt_ws_prefix n ps : partial_tokens_to_tokens (ws n ++ ps) = partial_tokens_to_tokens ps.
-Proof. induction n; [reflexivity|]. change (ws (S n)) with (PWhitespace :: ws n). cbn [app partial_tokens_to_tokens]. exact IHn. Qed.
+Proof. induction n as [|n IHn]; [reflexivity|]. change (ws (S n)) with (PWhitespace :: ws n). cbn [app partial_tokens_to_tokens]. exact IHn. Qed.
 
 Lemma ptt_ws_once ps1 : forall ps2,
   partial_tokens_to_tokens (ps1 ++ PWhitespace :: PWhitespace :: ps2) =
@@ -418,9 +418,10 @@ Proof.
   intros H. unfold word_token, literal_to_token.
   destruct (parse_dec_or_hex w); [reflexivity|]. destruct (parse_float w); [reflexivity|].
   destruct (parse_bool w); [reflexivity|]. cbn [fst].
-  destruct second as [[]|]; try reflexivity; destruct third as [[]|]; try reflexivity.
-  - pose proof (H false s eq_refl eq_refl) as E. cbn [sign_char] in E. rewrite E. reflexivity.
-  - pose proof (H true s eq_refl eq_refl) as E. cbn [sign_char] in E. rewrite E. reflexivity.
+  destruct second as [[tk2|lit2| | | | | | | | | | | | | ]|]; try reflexivity;
+    destruct third as [[tk3|lit3| | | | | | | | | | | | | ]|]; try reflexivity.
+  - pose proof (H false lit3 eq_refl eq_refl) as E. cbn [sign_char] in E. rewrite E. reflexivity.
+  - pose proof (H true lit3 eq_refl eq_refl) as E. cbn [sign_char] in E. rewrite E. reflexivity.
 Qed.
 
 Lemma ptt_lexeme l rest : lexeme_wf l -> follow_ok l rest ->
